@@ -1901,7 +1901,11 @@ bool Node::perform_handshake(const PeerId& peer_id,
     const auto existing = handshake_state_.find(key);
     if (existing != handshake_state_.end()) {
         const auto elapsed = now - existing->second.last_attempt;
-        if (existing->second.success && elapsed < config_.handshake_cooldown) {
+        // Inside the cooldown only an exact repeat of the handshake that was validated may
+        // skip validation; anything else from this peer id is checked like a first attempt.
+        if (existing->second.success && elapsed < config_.handshake_cooldown &&
+            existing->second.remote_public == remote_public_key &&
+            existing->second.remote_pow_nonce == remote_work_nonce) {
             return true;
         }
     }
